@@ -350,6 +350,24 @@ def workload(ctx):
                 ctx.case(normal.typed_key(cont), True, n=0)
                 ctx.run("C02.eval", (cont, env, hashable))
                 ctx.count("container:" + type(cont).__name__)
+        # 5b. subscripts whose index is a tuple of 0, 1 or 2 entries, on aggregates that tell
+        #     a[(i,)] from a[i]: a dict keyed by both, a list (tuple index: TypeError), an array
+        D_ = p.Variable("d")
+        for i in range(ctx.per_shard(ctx.pick(60, 1200))):
+            gen.pool = {"int": [], "num": [], "bool": []}
+            k = rng.choice([0, 1, 1, 2, p.Variable("s"), gen.int(1)])
+            k2 = rng.choice([0, 1, p.Variable("s")])
+            for idx in ((k,), k, (k, k2), (), ((k,),)):
+                for agg in (D_, p.Variable("a"), p.Variable("m")):
+                    e = p.Subscript(agg, idx)
+                    if rng.random() < 0.3:
+                        e = p.Sum((e, 1))
+                    env = G.base_env(1, 0, 0, s=rng.choice([0, 1]))
+                    env["d"] = {(0,): 10, 0: 20, (1,): 30, 1: 40, (0, 0): 50, (0, 1): 60, (1, 0): 70,
+                                (1, 1): 80, (): 90, ((0,),): 100, ((1,),): 110, 2: 120, (2,): 130}
+                    ctx.case(normal.typed_key(e), True, n=0)
+                    ctx.count("tuple_index_subscripts")
+                    ctx.run("C02.eval", (e, env, True))
         # 6. typed twins: ==-but-differently-typed composites inside ONE evaluation, bare and
         #    under common-subexpression wrappers, where the type shows in the value (true
         #    division, ~, shifts, subscripts need ints).  The memo keys conflate them: a known
@@ -378,6 +396,7 @@ def workload(ctx):
         for k, v in tr.handlers().items():
             ctx.count("handler:" + k, v)
     ctx.floor("typed_twin_cases", 100)
+    ctx.floor("tuple_index_subscripts", 300)
     ctx.floor("variant:plain", 1000)
     ctx.floor("variant:cached", 1000)
     ctx.floor("variant:evaluate_kw", 1000)
